@@ -1,11 +1,13 @@
 """C30 — batches conform to the declared schema: join output nullability."""
 from jt import *
 
-TECHNIQUE = 'finite-domain constant propagation over MIR (A1) + reference join model; logical/physical sibling tables'
+TECHNIQUE = 'finite-domain constant propagation over MIR (A1) + reference join model; logical/physical sibling tables; CFG extraction of unguarded match arms + per-variant evaluation for the strict-null agreement'
 EXPLANATION = ('Physical output_join_field(jt,is_left): exhaustive (10 x 2) table of the named local force_nullable; '
                'whenever the model can NULL-extend a side, that side is forced nullable. Logical build_join_schema: per join '
                'type, which side iterators reach nullify_fields; must cover the model and agree with the physical table '
-               '(executed types equivalent to the logical plan\'s). Mark columns are decided under C05. Nothing else of C30 is decided.')
+               '(executed types equivalent to the logical plan\'s). Strict-null agreement: every expression kind that the CASE reachability analysis '
+               '(predicate_bounds) treats as NULL exactly when a child is NULL has a nullable() that is not constantly true. '
+               'Mark columns are decided under C05. Nothing else of C30 is decided.')
 ASSUMPTIONS = ['reference model in oracles/joins.py']
 
 OJF = 'datafusion_physical_plan::joins::utils::output_join_field'
@@ -71,6 +73,81 @@ def check_force(ctx, rule, tab, where):
     return bad
 
 
+EXPR = 'datafusion_expr::expr::Expr'
+NULLABLE = '<datafusion_expr::expr::Expr as datafusion_expr::expr_schema::ExprSchemable>::nullable'
+PB = 'datafusion_expr::predicate_bounds::'
+
+
+def strict_variants(facts, rec, handler_pred, adt):
+    """variants of `adt` whose match arm in `rec` reaches a call accepted by handler_pred through gotos only (an unguarded arm): CFG rule"""
+    # locals assigned from a discriminant read
+    discr_locals = set()
+    for b in rec['bb']:
+        for st in b['s']:
+            if st[0] == '=' and st[2][0] == 'discr' and not st[1][1]:
+                discr_locals.add(st[1][0])
+    out = {}
+    for b in rec['bb']:
+        t = b['t']
+        if t[0] != 'switch' or t[1][0] not in ('c', 'm') or t[1][1][1] or t[1][1][0] not in discr_locals:
+            continue
+        for val, tg in t[2]:
+            cur, hops = tg, 0
+            while hops < 8:
+                tt = rec['bb'][cur]['t']
+                if tt[0] == 'goto':
+                    cur, hops = tt[1], hops + 1
+                    continue
+                if tt[0] == 'call' and isinstance(tt[1], dict) and handler_pred(tt[1].get('res') or tt[1].get('def') or ''):
+                    vi = vi_of_discr(facts, adt, val)
+                    if vi is not None:
+                        out[variant_names(facts, adt)[vi]] = tt[5] if len(tt) > 5 else 0
+                break
+    return out
+
+
+def strict_null_agreement(ctx, facts, adt=EXPR, nullable=NULLABLE, pb_prefix=PB, rule='strict-null-agreement'):
+    """The analysis that proves a CASE branch unreachable treats some expression kinds as STRICT (NULL exactly when a child is NULL: the unguarded
+    arms that go straight to the any-child-null handler).  For each such kind the schema side must agree: nullable(kind) has to be computed from
+    the children; a kind that nullable() declares nullable on every path regardless of its children (TRY_CAST: a failed cast yields NULL) cannot be
+    strict -- a CASE over it would be declared NOT NULL and still produce NULL."""
+    handlers = [d for d in facts.fn_index if d.startswith(pb_prefix) and '{closure' not in d and any(c.endswith('::apply_children') for c in
+                list(facts.callees.get(d, ())) + [c2 for k in facts.fn_index if k.startswith(d + '::{closure') for c2 in facts.callees.get(k, ())])]
+    if not handlers:
+        ctx.lost(rule, pb_prefix + '<function visiting the children of an expression>')
+        return 0, 0
+    deciders = [d for d in facts.fn_index if d.startswith(pb_prefix) and '{closure' not in d and d not in handlers and any(h in facts.callees.get(d, ()) for h in handlers)]
+    strict = {}
+    for d in deciders:
+        rec = facts.fn(d)
+        ctx.analysed_fns.add(d)
+        strict.update(strict_variants(facts, rec, lambda nm: nm in handlers, adt))
+    nrec = facts.fn(nullable)
+    if nrec is None:
+        ctx.lost(rule, nullable)
+        return 0, 0
+    ctx.analysed_fns.add(nullable)
+    bad = 0
+    for v in sorted(strict):
+        vi = variant_index(facts, adt, v)
+        self_v = R(A(adt, vi, v, ()))
+        try:
+            outs = Explorer(facts, inline_depth=0).run(nrec, [self_v, R(sym('schema'))][:nrec['argc']])
+        except Undecidable as ex:
+            ctx.undecided(rule, v, str(ex))
+            bad += 1
+            continue
+        oks = [strip(read_proj(strip(o.ret), [('f', 0)])) for o in outs if isinstance(strip(o.ret), A) and strip(o.ret).name == 'Ok']
+        always = bool(oks) and all(isinstance(x, I) and x.n == 1 for x in oks)
+        if always:
+            bad += 1
+            ctx.fail(rule, v, ctx.loc(nrec), 'the predicate-bounds analysis treats %s as NULL exactly when a child is NULL, but nullable() declares %s nullable on every path whatever '
+                     'its children are: a CASE branch guarded by it can be declared unreachable-when-NULL (column NOT NULL) and still yield NULL' % (v, v), key='%s|%s' % (rule, v))
+        else:
+            ctx.ok(rule, v, sample={'strict_variant': v, 'nullable_paths': len(oks), 'constant_true': False})
+    return bad, len(strict)
+
+
 def run(ctx):
     f = ctx.facts
     phys = force_table(ctx, f, OJF, JT, 'physical-nullability')
@@ -106,6 +183,9 @@ def run(ctx):
                              key='nullability-siblings|' + inst)
                 else:
                     ctx.ok('nullability-siblings', inst, nontrivial=phys[k])
+    # strict-null agreement between the CASE reachability analysis and the declared nullability
+    sb, sn = strict_null_agreement(ctx, f)
+    ctx.floor('strict-null-agreement', 'expression kinds the predicate-bounds analysis treats as strict', sn, 6)
     # selftest
     import common
     st = ctx.st
@@ -113,3 +193,6 @@ def run(ctx):
     probe.known = []
     t = force_table(probe, st, 'dfscan_selftest::tables::bad_force_nullable', 'dfscan_selftest::tables::JoinType', 'st')
     ctx.selftest('nullability bound detects Left join right side not forced nullable', bool(t) and check_force(probe, 'st', t, 'selftest') > 0)
+    sb2, sn2 = strict_null_agreement(probe, st, adt='dfscan_selftest::tables::Ex', nullable='dfscan_selftest::tables::Ex::nullable', pb_prefix='dfscan_selftest::tables::pb::', rule='st-strict')
+    ctx.selftest('strict-null agreement reports a kind that is strict for the bounds analysis but always nullable for the schema (TryCast), silent on Cast/Not',
+                 sorted(v['key'] for v in probe.viol if v['rule'] == 'st-strict') == ['st-strict|TryCast'] and sn2 == 3)
